@@ -67,7 +67,7 @@ def snap_arg(entries):
 
 def gen_fs_forest(rng, hostile=False, max_roots=3):
     items = gen_forest(rng, max_roots=max_roots, max_nodes=12 if rng.random() < 0.8 else 25, max_depth=5,
-                       pool="fs_hostile" if hostile else "fs", dup_prob=0.2)
+                       pool="fs_hostile" if hostile else rng.choice(["fs", "fs", "fs_prefix"]), dup_prob=0.2)
     # distinct root names (C06 quantifies over forests with distinct root names)
     seen = set()
     out = []
